@@ -66,9 +66,10 @@ def run_impl(case):
     sim.add_clock(1e-6)
     obs, fails = [], []
     style = rnd.choice(["random", "starve", "lockhold", "sticky"])
+    sparse_req = n >= 7 and rnd2.random() < .5
     stats = {"cycles": 0, "handovers": 0, "busy_with_waiter": 0, "n": n, "lock_bus": int("lock" in bfeat), style: 1,
              "free_with_waiter": 0, "elaborated_before_add": pre,
-             "refused_initiators_kept_requesting": len(ghosts), "features_spelled_" + spell: 1}
+             "refused_initiators_kept_requesting": len(ghosts), "sparse_requests": int(sparse_req), "features_spelled_" + spell: 1}
     bus = arb.bus
 
     def opt(present, v):
@@ -93,6 +94,8 @@ def run_impl(case):
                     if style == "starve" and i < 2:
                         p = 1.0 if (t // 3) % 2 == i else .3        # two initiators alternate aggressively
                     cyc = int(rnd.random() < p)
+                    if sparse_req:
+                        cyc = cyc and int(rnd2.random() < 2.0 / n)   # only one or two requesters at a time, far apart
                     stb = int(rnd.random() < .6)
                     lock = int(rnd.random() < (.7 if style == "lockhold" else .3))
                     if style == "lockhold" and rnd.random() < .5:
